@@ -194,13 +194,23 @@ func (c *Checked) Step(i int) {
 	}
 
 	for _, e := range evs {
-		if e.Kind == EvExit && e.Out != OutOK {
+		if (e.Kind == EvExit && e.Out != OutOK) || (e.Kind == EvCallback && e.CB.Panicked) {
 			c.faultBefore = true
 		}
 	}
 
 	// ---- advance the model by what dig accepted
 	c.advance(i, op, res)
+	// a registration issued by the invoked function's body counts as a Provide
+	// issued right after the Invoke: same acceptance oracle, same bookkeeping
+	for _, np := range c.R.W.NestedProv {
+		if np.Op == i {
+			c.probe("provide_inside_invoke")
+			nres := &OpResult{Op: i, Verdict: verdictOf(np.Facts), Facts: np.Facts}
+			c.advance(i, Op{Kind: OpProvide, Scope: np.Scope, Fn: np.Fn}, nres)
+			c.checkErrorFacts(i, Op{Kind: OpProvide, Scope: np.Scope, Fn: np.Fn}, nres, nil)
+		}
+	}
 }
 
 // afterFault adds C07 to the properties a violation counts against when an
@@ -392,9 +402,18 @@ func (c *Checked) checkLogRules(i int, op Op, res *OpResult, evs []Event) {
 	firstFailExec := -1
 	var failKind ExitKind
 	enteredHere := map[int]bool{}
+	inCB := map[int]bool{} // functions whose callback is running a nested request
 	for k := range evs {
 		e := &evs[k]
 		switch e.Kind {
+		case EvCallback:
+			if f := &c.H.Funcs[e.Fn]; f.Reenter && f.ReCB {
+				inCB[e.Fn] = true
+			}
+		case EvNested:
+			if e.Exec != -2 && e.Exec < 100 {
+				delete(inCB, e.Fn)
+			}
 		case EvEnter:
 			f := &c.H.Funcs[e.Fn]
 			if op.Kind != OpInvoke {
@@ -415,6 +434,9 @@ func (c *Checked) checkLogRules(i int, op Op, res *OpResult, evs []Event) {
 			// nested entry while already being built
 			if open := c.openAt(i, k); open[e.Fn] {
 				c.viol(i, "entered-while-open", fmt.Sprintf("f%d entered while already executing", e.Fn), "C02", "C05")
+			}
+			if inCB[e.Fn] {
+				c.viol(i, "entered-from-own-callback", fmt.Sprintf("f%d entered again by a request issued from its own callback, i.e. while its call is still in progress", e.Fn), "C02", "C05")
 			}
 			enteredHere[e.Fn] = true
 			c.entered[e.Fn]++
@@ -438,7 +460,9 @@ func (c *Checked) checkLogRules(i int, op Op, res *OpResult, evs []Event) {
 				}
 			} else {
 				c.lastFail[e.Fn] = true
-				if firstFail < 0 {
+				// a failure inside a nested request issued by user code stays
+				// there (the stubs ignore its outcome)
+				if firstFail < 0 && e.Nest == 0 {
 					firstFail, firstFailExec, failKind = e.Fn, e.Exec, e.Out
 				}
 			}
@@ -453,7 +477,16 @@ func (c *Checked) checkLogRules(i int, op Op, res *OpResult, evs []Event) {
 		c.probe("fault_in_dependency")
 		want := [2]int{firstFail, firstFailExec}
 		f := res.Facts
+		cbPanicked := false
+		for _, e := range evs {
+			if e.Kind == EvCallback && e.CB.Panicked && e.Nest == 0 {
+				// a panicking callback takes over from whatever the function
+				// itself reported: no claim about the root cause then
+				cbPanicked = true
+			}
+		}
 		switch {
+		case cbPanicked:
 		case failKind == OutErr:
 			if f.RootInj != want {
 				c.viol(i, "root-cause-lost", fmt.Sprintf("f%d failed with its injected error (exec %d) but Invoke returned verdict %s root=%v (%s)", firstFail, firstFailExec, res.Verdict, f.RootInj, f.Text), "C07", "C13")
@@ -478,7 +511,7 @@ func (c *Checked) checkLogRules(i int, op Op, res *OpResult, evs []Event) {
 	// closure of this Invoke still contains the failed function and no
 	// decorator loop is involved.)
 	for _, e := range evs {
-		if e.Kind == EvNested {
+		if e.Kind == EvNested && e.Exec < 100 {
 			c.probe("reentrant_demand")
 			if e.Exec == -2 {
 				// satisfied without re-entering the constructor (e.g. by a
@@ -686,8 +719,18 @@ func (c *Checked) checkCallbacks(i int, op Op, res *OpResult, evs []Event) {
 					}
 				}
 			}
-			if cb.RuntimeNs != f.DurNs {
-				c.viol(i, "callback-runtime", fmt.Sprintf("f%d spent %dns inside its body, callback Runtime %dns", e.Fn, f.DurNs, cb.RuntimeNs), "C20")
+			// time inside the function: from its fn-enter to its fn-exit on the
+			// simulated clock (its own duration plus whatever nested requests
+			// its body issued; never its dependencies)
+			spent := f.DurNs
+			for b := k - 1; b >= 0; b-- {
+				if evs[b].Kind == EvEnter && evs[b].Fn == e.Fn && evs[b].Exec == e.Exec {
+					spent = e.SimT - evs[b].SimT
+					break
+				}
+			}
+			if cb.RuntimeNs != spent {
+				c.viol(i, "callback-runtime", fmt.Sprintf("f%d spent %dns inside its body, callback Runtime %dns", e.Fn, spent, cb.RuntimeNs), "C20")
 			}
 			if f.DurNs > 0 {
 				c.probe("callback_runtime_checked")
@@ -1133,7 +1176,7 @@ func (c *Checked) checkInvokeModel(i int, op Op, res *OpResult, evs []Event) {
 				c.viol(i, "ran-with-missing-direct-dependency", fmt.Sprintf("ctor f%d executed although a required direct dependency has no provider", e.Fn), "C04")
 			}
 		}
-		if e.Kind == EvExit && e.Out != OutOK {
+		if (e.Kind == EvExit && e.Out != OutOK) || (e.Kind == EvCallback && e.CB.Panicked) {
 			anyFail = true
 		}
 	}
@@ -1237,7 +1280,7 @@ func expInput(p LeafParam) string {
 	t := TypeName(p.Key.T)
 	var toks []string
 	if p.Key.IsGroup() {
-		if p.NamedSlice && !IsIface(p.Key.T) && !isVal(p.Key.T) {
+		if p.NamedSlice && !IsIface(p.Key.T) && !isVal(p.Key.T) && !isAlt(p.Key.T) {
 			t = fmt.Sprintf("sim.KS%d", p.Key.T)
 		} else {
 			t = "[]" + t
@@ -1294,6 +1337,33 @@ var (
 // entry is "<type>" or "<type>[attr, attr...]": the type and the *set* of
 // attributes are compared, so that a different spelling order of the
 // attributes (which no statement fixes) is not an alarm.
+// The ID rule of C18 is the one oracle with memory across histories. While a
+// failing history is minimised, every candidate must be judged against that
+// memory as it was *before* the failing history started, or the minimiser
+// would drop the very operation that created the collision.
+type catIDState struct{ ids, rev map[int]int }
+
+func snapshotCatIDs() catIDState {
+	s := catIDState{make(map[int]int, len(catIDs)), make(map[int]int, len(catIDRev))}
+	for k, v := range catIDs {
+		s.ids[k] = v
+	}
+	for k, v := range catIDRev {
+		s.rev[k] = v
+	}
+	return s
+}
+
+func restoreCatIDs(s catIDState) {
+	catIDs, catIDRev = make(map[int]int, len(s.ids)), make(map[int]int, len(s.rev))
+	for k, v := range s.ids {
+		catIDs[k] = v
+	}
+	for k, v := range s.rev {
+		catIDRev[k] = v
+	}
+}
+
 func eqStr(a, b []string) bool {
 	if len(a) != len(b) {
 		return false
